@@ -4,7 +4,7 @@ from __future__ import annotations
 import os
 import struct
 
-from vf import pins
+from vf import cli, pins
 from vf.core import EnumPart, HypPart, Oracle
 from vf.gen import mbi as G
 from vf.ref import mbi_rom
@@ -16,7 +16,8 @@ LEVEL = "exploration"
 TECHNIQUE = (
     "device-database enumeration of every (family, target, authentication) class x Hypothesis-generated option sets, payloads and key "
     "material, built through the configuration path of `nxpimage mbi export`; round trip through MasterBootImage.parse / create_config / "
-    "re-export and a header reader written from the vector-table layout"
+    "re-export and a header reader written from the vector-table layout; about one case in six additionally through the real "
+    "`nxpimage mbi export` / `nxpimage mbi parse` commands (click test runner) with the same oracles on the files they write"
 )
 LEVEL_TEXT = (
     "exploration: for generated configurations of every mixin composition the database defines, the exported image must parse back to the "
@@ -39,7 +40,7 @@ ASSUMPTIONS = [
     "custom TrustZone is generated only for families whose database record has a TrustZone register file (lpc55s26/28 have none)",
 ]
 # about one third of the smallest share seen in clean quick runs with seeds 1, 2, 3, 7, 1234 (see notes/c01-report.md)
-FLOORS = {"len%16!=0": 0.15, "len%16=0": 0.02, "len%512=0": 0.01, "signed": 0.1, "certv1": 0.035, "certv21": 0.025, "crc": 0.035, "encrypted": 0.0075,
+FLOORS = {"cli": 0.03, "len%16!=0": 0.15, "len%16=0": 0.02, "len%512=0": 0.01, "signed": 0.1, "certv1": 0.035, "certv21": 0.025, "crc": 0.035, "encrypted": 0.0075,
           "tz:custom": 0.06, "tail:reloc_footer": 0.0075, "reloc>0": 0.0075, "chain_mixed": 0.01, "key_store:1": 0.006, "isk": 0.01}
 
 _CTX = {"work": None, "seed": 1, "tier": "quick"}
@@ -111,25 +112,11 @@ def sig_field(b: G.Built, image_len: int):
     return None
 
 
-def run_case(case, o: Oracle) -> None:
-    b = G.materialise(case, _workdir())
+def _header(o, b: G.Built, img: bytes):
+    """(f) header reader: the four vector-table words describe the emitted bytes; returns the certificate block offset found."""
     cls = b.cls
-    o.label(*b.labels)
-    _classify(b, o)
     ivt = G.has(cls, "MixinIvt", "MixinIvtZeroTotalLength")
-
-    # ------------------------------------------------------------------ (a) export
-    res = None
-    with o.spsdk("export"):
-        res = G.export_like_nxpimage(b.config_path)
-    if res is None:
-        return
-    obj, img = res
-    o.artifact("image", img)
     want_app = G.pad4(b.app)
-    owned = builder_owned(b)
-
-    # ------------------------------------------------------------------ (f) header reader
     cert_off = None
     if ivt:
         h = mbi_rom.Header(img)
@@ -164,6 +151,32 @@ def run_case(case, o: Oracle) -> None:
                 o.check("header", got == blk, "reloc_block_in_image", first_diff(got, blk))
             if b.tz_type == 1 and not G.cert_kind(cls):
                 o.check("header", img[-len(b.tz_bytes) :] == b.tz_bytes, "tz_data_in_image", first_diff(img[-len(b.tz_bytes) :], b.tz_bytes))
+    return cert_off
+
+
+def run_case(case, o: Oracle) -> None:
+    b = G.materialise(case, _workdir())
+    cls = b.cls
+    o.label(*b.labels)
+    _classify(b, o)
+    ivt = G.has(cls, "MixinIvt", "MixinIvtZeroTotalLength")
+
+    # ------------------------------------------------------------------ (a) export
+    res = None
+    with o.spsdk("export"):
+        res = G.export_like_nxpimage(b.config_path)
+    if res is None:
+        return
+    obj, img = res
+    o.artifact("image", img)
+    want_app = G.pad4(b.app)
+    owned = builder_owned(b)
+
+    # ------------------------------------------------------------------ (f) header reader
+    cert_off = _header(o, b, img)
+
+    # ------------------------------------------------------------------ (g) the same configuration through `nxpimage mbi export`
+    cli_img = _cli_export(b, img, o) if cli.selected(case, CLI_ONE_IN) else None
 
     # ------------------------------------------------------------------ (b) parse
     from spsdk.image.mbi.mbi import MasterBootImage
@@ -247,6 +260,62 @@ def run_case(case, o: Oracle) -> None:
     # ------------------------------------------------------------------ (d) recreated configuration loads again
     _recreate(b, p, img, o)
 
+    # ------------------------------------------------------------------ (g) ... and the file it wrote through `nxpimage mbi parse`
+    if cli_img is not None:
+        _cli_parse(b, cli_img, o)
+
+
+CLI_ONE_IN = 7  # share of the cases that also go through the real commands (pure function of the case; costs as much as a case)
+
+
+def _cli_export(b: G.Built, img: bytes, o: Oracle):
+    """`nxpimage mbi export -c mbi.yaml`: the file it writes is judged like the library-built image."""
+    data, _res = G.nxpimage_mbi_export(b, o)
+    if data is None:
+        return None
+    co = cli.Scoped(o, "mbi_export")
+    if len(data) < 0x38 <= len(img):
+        co.fail("header", "short_file", "the command wrote %d bytes, the library call sequence gives %d" % (len(data), len(img)))
+        return None
+    _header(co, b, data)
+    co.eq("twin", "length", len(data), len(img))
+    if G.deterministic_build(b):
+        # nothing random goes into this image: the command and the library call sequence must agree byte for byte
+        co.check("twin", data == img, "bytes", first_diff(data, img))
+        o.label("cli:bytes_compared")
+    return data
+
+
+def _cli_parse(b: G.Built, img: bytes, o: Oracle) -> None:
+    """`nxpimage mbi parse` on the file the export command wrote: application and additional images come back as files with
+    the given content, and the configuration it writes builds the same image again (through the export command)."""
+    cls = b.cls
+    co = cli.Scoped(o, "mbi_parse")
+    out = os.path.join(b.dir, "parsed_cli")
+    binary = os.path.join(b.dir, b.config["masterBootOutputFile"])
+    args = ["mbi", "parse", "-f", cls["family"], "-r", cls["revision"], "-b", binary, "-o", out]
+    if b.user_key is not None:
+        # the key the way the configuration gave it: a text / binary file, or the hex string itself
+        v = b.config["outputImageEncryptionKeyFile"]
+        args += ["-k", os.path.join(b.dir, v) if v.startswith("userkey.") else v]
+    res = cli.run(o, "mbi_parse", args, cwd=os.path.join(os.path.dirname(b.dir), "cli-cwd"))
+    if res is None:
+        return
+    co.check("command", "Success." in res.output, "no_success_message", res.describe())
+    cfg_path = os.path.join(out, "mbi_config.yaml")
+    cfg = cli.load_yaml(o, "mbi_parse", cfg_path)
+    if not isinstance(cfg, dict):
+        return
+    want_app, owned = G.pad4(b.app), builder_owned(b)
+    app = cli.read(o, "mbi_parse", os.path.join(out, str(cfg.get("inputImageFile"))))
+    if app is not None and co.eq("payload", "length", len(app), len(want_app)):
+        co.check("payload", mask_ranges(app, owned) == mask_ranges(want_app, owned), "content", first_diff(mask_ranges(app, owned), mask_ranges(want_app, owned)))
+
+    def exporter(path: str):
+        return G.nxpimage_mbi_export(b, o, path, what="mbi_export_again")[0]
+
+    _reload(b, img, co, out, cfg_path, cfg, exporter)
+
 
 def _recreate(b: G.Built, p, img: bytes, o: Oracle) -> None:
     import datetime  # noqa: F401
@@ -265,6 +334,14 @@ def _recreate(b: G.Built, p, img: bytes, o: Oracle) -> None:
         ok = True
     if not ok:
         return
+    _reload(b, img, o, out, cfg_path, cfg, lambda path: G.export_like_nxpimage(path)[1])
+
+
+def _reload(b: G.Built, img: bytes, o, out: str, cfg_path: str, cfg: dict, exporter) -> None:
+    """The configuration + files found in `out` (written by create_config, or by `nxpimage mbi parse`) build the image again;
+    `exporter(path)` returns the image built from a configuration file (None: failure already booked)."""
+    from spsdk.utils.misc import load_configuration
+
     # what a parsed image cannot contain is put back by the user: private keys, the user key, (vX) the certificate block source
     with o.spsdk("recreate", "reload"):
         cfg2 = load_configuration(cfg_path)
@@ -318,7 +395,9 @@ def _recreate(b: G.Built, p, img: bytes, o: Oracle) -> None:
         path2 = os.path.join(out, "mbi_reload.yaml")
         with open(path2, "w", encoding="utf-8") as f:
             yaml.safe_dump(cfg2, f, sort_keys=False)
-        _obj3, img3 = G.export_like_nxpimage(path2)
+        img3 = exporter(path2)
+        if img3 is None:
+            return
         o.eq("recreate", "image_length", len(img3), len(img))
         if G.has(b.cls, "MixinIvt", "MixinIvtZeroTotalLength") and len(img3) >= 0x38:
             for off in (0x20, 0x24, 0x34):
@@ -338,7 +417,7 @@ def _recreate(b: G.Built, p, img: bytes, o: Oracle) -> None:
             got = {}
             for e in cfg["applicationTable"]:
                 with open(os.path.join(out, e["binary"]), "rb") as f:
-                    got[int(e["destAddress"])] = f.read()
+                    got[G._to_int(e["destAddress"])] = f.read()  # noqa: SLF001 - number spelling of a YAML file
             o.eq("recreate", "additional_images", got, {dest: data for data, dest in b.reloc})
 
 
@@ -387,6 +466,7 @@ def _matrix_item(tier: str, i: int):
 
 def parts(ctx):
     _CTX.update(work=ctx.work, seed=ctx.seed, tier=ctx.tier)
+    cli.preload()
     max_len = 16384 if ctx.quick else 262144
     return [
         EnumPart("matrix", _matrix_count, _matrix_item, run_case, exhaustive=False),
